@@ -363,6 +363,14 @@ Definition run_diag_plane (a : list Z) : list Z :=
   | _ => [-1]
   end.
 
+(* CMD group_slices = 14 : groups ic oc -> per group ic_lo ic_hi oc_lo oc_hi *)
+Definition run_group_slices (a : list Z) : list Z :=
+  match a with
+  | [g; ic; oc] => flat_map (fun q => let '(a1, a2, a3, a4) := q in [a1; a2; a3; a4])
+                            (group_slices (Z.to_nat g) (Z.to_nat ic) (Z.to_nat oc))
+  | _ => [-1]
+  end.
+
 Definition run (cmd : Z) (a : list Z) : list Z :=
   if cmd =? 1 then run_driver_payload a
   else if cmd =? 2 then run_driver_parse a
@@ -377,4 +385,5 @@ Definition run (cmd : Z) (a : list Z) : list Z :=
   else if cmd =? 11 then run_widen_kernel a
   else if cmd =? 12 then run_pad_split a
   else if cmd =? 13 then run_diag_plane a
+  else if cmd =? 14 then run_group_slices a
   else [-1].
